@@ -71,6 +71,9 @@ def check_graph(nodes, root_obj, evaluate, root_is_label=False):
     nodes = list(nodes)
     if not nodes:
         return ("empty", "no nodes")
+    for n in nodes:
+        if not all(hasattr(n, a) for a in ("type", "unwrapped", "var", "cyclic")):
+            return ("foreign-entry", f"{n!r:.80} is not a graph node")
     # duplicate-free
     seen = []
     for n in nodes:
@@ -149,6 +152,9 @@ def tnorm(t) -> str:
 def render(nodes, drop_last_label=False):
     out = []
     for i, n in enumerate(nodes):
+        if not hasattr(n, "type"):
+            out.append(["<foreign>", repr(n)[:40], None, False])
+            continue
         lab = "<root>" if (drop_last_label and i == len(nodes) - 1) else tnorm(n.type)
         out.append([lab, tnorm(n.unwrapped), n.var, bool(n.cyclic)])
     return out
@@ -290,7 +296,7 @@ class C09(PropBase):
             return
         nodes = sess.results[step["id"]]
         if sp in ("newtype", "alias"):
-            if nodes and not (nodes[-1].type is arg):
+            if nodes and not (getattr(nodes[-1], "type", None) is arg):
                 sess.violation("graph-invariant", i, {"t": tsrc, "rule": "root-not-last", "spelling": sp}, sig=f"invariant:root-not-last:{sp}")
                 return
         err = check_graph(nodes, T, refs.evaluate, root_is_label=sp in ("newtype", "alias"))
